@@ -31,6 +31,17 @@ def rule_create_copies(ctx, rid="R16.1"):
     prog = ctx.prog
     V = prog.tables.validator_cls
     r = ctx.rule(rid, "create() binds fresh copies of its mapping arguments into the new class", floor=3)
+    from .c02 import _valsem
+    sem = _valsem(ctx, "classes_eval")
+    if sem is not None:
+        # decided on a class made by running create() inside the definitional interpreter, then changing the caller's mapping
+        if sem["create-copies"] is None:
+            for attr in ("VALIDATORS", "META_SCHEMA"):
+                r.ok("jsonschema/validators.py Validator.%s" % attr, "an equal but separate copy of the mapping given to create()")
+            r.ok("jsonschema/validators.py Validator [later change]", "a key added to the caller's mapping afterwards does not reach the class")
+        else:
+            r.fail("Validator.VALIDATORS|binding|semantic", "jsonschema/validators.py create.Validator", sem["create-copies"])
+        return r
     create = prog.tables.create
     pnames = set(create.all_params)
     for attr, param in (("VALIDATORS", "validators"), ("META_SCHEMA", "meta_schema"), ("_DEFAULT_TYPES", "default_types")):
@@ -63,6 +74,17 @@ def rule_extend(ctx, rid="R16.2"):
             r.fail("%s|write|%s" % (f.qual, w.text), site(f, w.node), "extend() modifies %s (%s): the parent class or the caller's mapping is disturbed" % (w.text, t))
     else:
         r.ok(site(f), "no write to the parent class or to the arguments")
+    from .c02 import _valsem
+    sem = _valsem(ctx, "classes_eval")
+    if sem is not None:
+        if sem["extend"] is None:
+            for what in ("table = parent's + overrides", "parent's table untouched", "metaschema carried", "type checker: parent's unless given",
+                         "ids read as the parent reads them", "no-change extend gives an equal, separate class"):
+                r.ok(site(f) + " [%s]" % what, "holds for classes extended inside the definitional interpreter")
+        else:
+            kind = "forward|type_checker" if "type checker" in sem["extend"] else ("forward|id_of" if "ids" in sem["extend"] else "table-copy")
+            r.fail("%s|%s" % (f.qual, kind), site(f), sem["extend"])
+        return r
     # (b) the updated mapping is a fresh copy of parent.VALIDATORS
     ups = [n for n in walk_body(f) if isinstance(n, ast.Call) and isinstance(n.func, ast.Attribute) and n.func.attr == "update"]
     cc = [n for n in walk_body(f) if isinstance(n, ast.Call) and any(t.kind == "func" and t.func is create for t in calls.callee(f, n))]
